@@ -5,6 +5,8 @@ use crate::named::NAMED;
 use crate::observe::{rank_enum, suit_enum};
 use ckc_rs::deck::{Deck, POKER_DECK};
 use ckc_rs::{CKCNumber, CardNumber, PokerCard};
+#[allow(unused_imports)]
+use ckc_rs::cards::HandValidator;
 
 fn is_card(o: &Oracle, w: u32) -> bool {
     o.word_to_card.contains_key(&w)
@@ -344,6 +346,57 @@ pub fn c11(o: &Oracle, thorough: bool, seed: u64, rep: &Report) {
         }
     });
     rep.space("bit-neighbour arrays: a base word with one or two bits flipped, all bit pairs x 6 bases x sizes 2..7 x 24 arrangements", true, nb.load(Ordering::Relaxed));
+    // the scenario the multiples flags exist for: take distinct cards (any order, or already sorted),
+    // validate / inspect the hand, mark some of its cards, then sort -- on ONE live container
+    {
+        let mut rng = Rng::new(seed ^ 0x3A4C);
+        let sc = if thorough { 400_000 } else { 60_000 };
+        for k in 0..sc {
+            let n = 2 + (k % 6) as usize;
+            let mut d: Vec<usize> = (0..52).collect();
+            rng.shuffle(&mut d);
+            let mut w: Vec<u32> = d.iter().take(n).map(|&i| o.cards[i].w).collect();
+            if k % 2 == 0 {
+                w.sort_unstable_by(|a, b| b.cmp(a));
+            }
+            let mut h = Hand::from_words(&w);
+            let r = guarded(|| {
+                // read-only calls first
+                let _ = (h.is_valid(), h.are_unique(), h.is_corrupt(), h.contain_blank(), h.first());
+                if n >= 5 && k % 3 == 0 {
+                    let _ = rank_value_validated(&h);
+                }
+                if k % 5 == 0 {
+                    let _ = h.sort();
+                }
+                // mark one to three cards through the setters
+                let marks = 1 + (k / 7) % 3;
+                for m in 0..marks {
+                    let slot = rng.below(n as u64) as usize;
+                    let v = h.get(slot);
+                    let f = match (m + k) % 3 { 0 => v.flag_as_pair(), 1 => v.flag_as_trips(), _ => v.flag_as_quads() };
+                    h.set(slot, f);
+                }
+                let cur = h.to_arr();
+                let mut e = cur.clone();
+                e.sort_unstable_by(|a, b| b.cmp(a));
+                let c = h.sort().to_arr();
+                h.sort_in_place();
+                (cur, e, c, h.to_arr())
+            });
+            match r {
+                Ok((cur, e, c, g)) => {
+                    if c != e || g != e {
+                        viol(rep, json!({"op":"sort","pre":hilo_arr(&cur)}), json!({"copy": hilo_arr(&e), "inplace": hilo_arr(&e), "again": hilo_arr(&e)}),
+                             "after validating a hand and marking some of its cards on the same container, sorting is not the non-increasing rearrangement (the result depends on the calls made before)");
+                    }
+                }
+                Err(_) => viol(rep, json!({"op":"sort","pre":hilo_arr(&w)}), json!({}), "validate / mark / sort scenario unwound"),
+            }
+            rep.eval(4);
+        }
+        rep.space("history probe: validate -> mark through setters -> sort on one live container, sizes 2..7", false, sc);
+    }
     let mut rng = Rng::new(seed ^ 0x50F7);
     let reps = if thorough { 2_000_000 } else { 100_000 };
     for n in 2..=7usize {
